@@ -3,5 +3,6 @@ package all
 
 import (
 	_ "verifharness/c04"
+	_ "verifharness/c10"
 	_ "verifharness/c18"
 )
